@@ -306,11 +306,11 @@ def main(argv):
         n_diff += 1
         sig = (ofail[0] if ofail else diffs[0])[:200]
         sigkey = normsig(sig)
-        if sigkey in seen_sig or len(seen_sig) >= 5:
+        if sigkey in seen_sig or len([x for x in seen_sig if not x.startswith("[KF:")]) >= 5:
             continue
         seen_sig.add(sigkey)
         small = c
-        if not a.replay and len(violations) < 3:
+        if not a.replay and len(violations) < 3 and not sig.startswith("[KF:"):
             def fails(cc, r, want=sigkey, use_oracle=bool(ofail)):
                 _im, _mo, d = r
                 of = []
@@ -341,12 +341,19 @@ def main(argv):
 
     # ---- 5. known findings, verdict, evidence ------------------------------------------------------
     known = load_known()
-    open_k = [k for k in known.get("open", []) if f"property={pid} " in k]
+    open_k = {}
+    for k in known.get("open", []):
+        m = re.match(r"open: property=(\S+) key=(\S+) (.*)", k)
+        if m and m.group(1) == pid:
+            open_k[m.group(2)] = m.group(3)
     final = []
+    printed_kf = set()
     for sig, path, found in violations:
-        hit = [k for k in open_k if k.split(" ", 2)[-1][:60] in sig]
-        if hit:
-            log(f"KNOWN-FINDING: property={pid} {hit[0].split(' ', 2)[-1]}")
+        m = re.match(r"\[KF:([^\]]+)\]", sig)
+        if m and m.group(1) in open_k:
+            if m.group(1) not in printed_kf:
+                log(f"KNOWN-FINDING: property={pid} {open_k[m.group(1)][:300]} (replay={path})")
+                printed_kf.add(m.group(1))
         else:
             final.append((sig, path, found))
     wall = time.time() - t0
